@@ -24,7 +24,8 @@ HasKey(m, k) == k \in Keys(m)
 Idx(m, k) == CHOOSE i \in 1..Len(m) : m[i].k = k
 Get(m, k) == m[Idx(m, k)].v
 Put(m, k, v) == IF HasKey(m, k) THEN [m EXCEPT ![Idx(m, k)].v = v] ELSE Append(m, [k |-> k, v |-> v])
-AppendTo(m, k, v) == IF HasKey(m, k) THEN [m EXCEPT ![Idx(m, k)].v = Lst(@.v \o <<v>>)]
+\* (a value that is not a list can only be a leftover of another format's parse: the defect variant of MC_ArgsSeq)
+AppendTo(m, k, v) == IF HasKey(m, k) THEN [m EXCEPT ![Idx(m, k)].v = IF @.t = "L" THEN Lst(@.v \o <<v>>) ELSE Lst(<<v>>)]
                      ELSE Append(m, [k |-> k, v |-> Lst(<<v>>)])
 
 StartsDash(tok) == Len(tok) >= 1 /\ tok[1] = "-"
